@@ -139,6 +139,35 @@ def definiteInt (op : BinaryOp) (mn mx val : Int) : Bool :=
   | .NotEq => decide (val < mn) || decide (val > mx)
   | _ => false
 
+/-- integer min / max of Int64 / Int32 statistics -/
+def Stats.intBounds : Stats → Option (Int × Int)
+  | .int64 (some a) (some b) => some (a, b)
+  | .int32 (some a) (some b) => some (a, b)
+  | _ => none
+/-- the `(min, max): (f64, f64)` of `definite_comparison` -/
+def Stats.floatBounds (ofInt : Int → F64) : Stats → Option (F64 × F64)
+  | .int64 (some a) (some b) => some (ofInt a, ofInt b)
+  | .int32 (some a) (some b) => some (ofInt a, ofInt b)
+  | .double (some a) (some b) => some (a, b)
+  | _ => none
+def Lit.int? : Lit → Option Int
+  | .i64 v => some v | .i32 v => some v | .date v => some v | .ts v => some v | _ => none
+/-- the `val: f64` of `definite_comparison` -/
+def Lit.float? (ofInt : Int → F64) : Lit → Option F64
+  | .i64 v => some (ofInt v) | .i32 v => some (ofInt v) | .date v => some (ofInt v) | .ts v => some (ofInt v)
+  | .f64 v => some v | _ => none
+
+/-- the tail of `definite_comparison` once column statistics and literal are in hand -/
+def definiteCore (dev : Dev) (ofInt : Int → F64) (st : Stats) (lit : Lit) (eop : BinaryOp) : Bool :=
+  match st.intBounds, lit.int? with
+  | some (mn, mx), some v =>
+    -- the code: everything through f64; intended: integers as integers
+    if dev.definiteViaF64 then definite_table eop (ofInt mn) (ofInt mx) (ofInt v) else definiteInt eop mn mx v
+  | _, _ =>
+    match st.floatBounds ofInt, lit.float? ofInt with
+    | some (mn, mx), some v => definite_table eop mn mx v
+    | _, _ => false
+
 /-- `definite_comparison` -/
 def definiteComparison (dev : Dev) (ofInt : Int → F64) (l : Opd) (op : BinaryOp) (r : Opd) (rg : Rg) : Bool :=
   match colLit l r with
@@ -146,29 +175,8 @@ def definiteComparison (dev : Dev) (ofInt : Int → F64) (l : Opd) (op : BinaryO
   | some (c, lit, flipped) =>
     match rg[c]? with
     | some (some cm) =>
-      if cm.nullCount != some 0 then false else
-      let eop := if flipped then flip_op op else op
-      let istats : Option (Int × Int) := match cm.stats with
-        | .int64 (some a) (some b) => some (a, b)
-        | .int32 (some a) (some b) => some (a, b)
-        | _ => none
-      let fstats : Option (F64 × F64) := match cm.stats with
-        | .int64 (some a) (some b) => some (ofInt a, ofInt b)
-        | .int32 (some a) (some b) => some (ofInt a, ofInt b)
-        | .double (some a) (some b) => some (a, b)
-        | _ => none
-      let ilit : Option Int := match lit with
-        | .i64 v => some v | .i32 v => some v | .date v => some v | .ts v => some v | _ => none
-      let flit : Option F64 := match lit with
-        | .i64 v => some (ofInt v) | .i32 v => some (ofInt v) | .date v => some (ofInt v) | .ts v => some (ofInt v)
-        | .f64 v => some v | _ => none
-      match istats, ilit with
-      | some (mn, mx), some v =>
-        if dev.definiteViaF64 then definite_table eop (ofInt mn) (ofInt mx) (ofInt v) else definiteInt eop mn mx v
-      | _, _ =>
-        match fstats, flit with
-        | some (mn, mx), some v => definite_table eop mn mx v
-        | _, _ => false
+      if cm.nullCount != some 0 then false      -- a null row fails every comparison
+      else definiteCore dev ofInt cm.stats lit (if flipped then flip_op op else op)
     | _ => false
 
 /-- `row_group_definitely_matches` -/
